@@ -63,7 +63,8 @@ def _handed_to(fn, callee_pred):
         return True
     outer = _fn_parent(fn)
     if outer is not None and not isinstance(outer, ast.ClassDef):
-        for c in body_walk(outer):
+        # anywhere in the enclosing function, sibling closures included (`def back(): ...` handed over from inside `def work(): ... do(back)`)
+        for c in ast.walk(outer):
             if isinstance(c, ast.Call) and callee_pred(c.func) and any(isinstance(a, ast.Name) and a.id == fn.name for a in c.args):
                 return True
     return False
@@ -252,7 +253,7 @@ def _s_dispatch(ctx, S):
                 for c in walk_local(n.ast):
                     if isinstance(c, ast.Call) and _is_coord_do(c.func) and c.args:
                         a = c.args[0]
-                        t_ = a if isinstance(a, ast.Lambda) else next((x for x in walk_local(work) if isinstance(x, ast.FunctionDef) and isinstance(a, ast.Name) and x.name == a.id), None)
+                        t_ = a if isinstance(a, ast.Lambda) else next((x for x in ast.walk(f) if isinstance(x, ast.FunctionDef) and isinstance(a, ast.Name) and x.name == a.id), None)
                         backs.append((n.id, t_))
         ctx.check(len(backs) >= 1, "handback/after-task", qw, "the worker function never hands the worker back through the coordinator")
         for tn, tc in tcalls:
@@ -360,13 +361,16 @@ def _s_quit_idlers(ctx, S):
             ok = any(isinstance(x, ast.Call) and call_name(x) == p.targets[0].id + ".quit" for x in walk_local(f))
         ctx.check(ok, "quit/idle-workers-stopped", ctx.construct(q, c), "a worker removed from _idle is not quit (its thread never ends)")
         for cn in g.ids_of(c):
-            ctx.check(g.guarded(cn, lambda e: src(e) == "self._idle", True), "quit/idle-workers-stopped", ctx.construct(q, "pop guarded by non-empty _idle"),
+            # an empty set is either tested for first, or its KeyError is caught (`try: w = idle.pop() except KeyError: <remember for later>`)
+            empty_ok = g.guarded(cn, lambda e: src(e) == "self._idle", True) or catching_handler(c, f, "KeyError") is not None
+            ctx.check(empty_ok, "quit/idle-workers-stopped", ctx.construct(q, "pop guarded by non-empty _idle"),
                       "pop from a possibly empty _idle set")
     defer_ = g.ids(lambda n: n.kind == "stmt" and isinstance(n.ast, ast.AugAssign) and is_self_attr(n.ast.target, "_toShrink"))
     ctx.check(bool(defer_), "shrink/deferred-for-busy", q, "shrinking below the number of idle workers is not remembered in _toShrink")
     for s in defer_:
         st = g.node(s).ast
-        ctx.check(isinstance(st.op, ast.Add) and src(st.value) == "1" and g.guarded(s, lambda e: src(e) == "self._idle", False),
+        in_empty_handler = any(catching_handler(c, f, "KeyError") is not None and any(p_ is catching_handler(c, f, "KeyError") for p_ in _parents_until(st, f)) for c in pops)
+        ctx.check(isinstance(st.op, ast.Add) and src(st.value) == "1" and (g.guarded(s, lambda e: src(e) == "self._idle", False) or in_empty_handler),
                   "shrink/deferred-for-busy", ctx.construct(q, st), "_toShrink is not incremented exactly when no idle worker is left")
     # the number of workers to stop defaults (n is None) to idle + busy: looked up through whatever feeds the loop's range()
     total = (frozenset({("len(self._idle)", 1), ("self._busyCount", 1)}), 0)
